@@ -64,7 +64,7 @@ func runC19(ctx *Ctx) {
 	if ctx.Thorough {
 		vectors = append(vectors, [5]int{3, 3, 3, 3, 3}, [5]int{3, 1, 1, 0, 2}, [5]int{3, 0, 0, 0, 0}, [5]int{2, 2, 2, 0, 0}, [5]int{2, 2, 0, 2, 0})
 	}
-	kinds := []string{"close", "garbage-ff", "garbage-00", "truncated", "garbage-2047", "garbage-2048", "garbage-4096", "bad-choice", "bad-length", "bad-count", "bad-padding"}
+	kinds := []string{"close", "garbage-ff", "garbage-00", "truncated", "garbage-2047", "garbage-2048", "garbage-4096", "bad-choice", "bad-length", "bad-count", "bad-padding", "close-after"}
 	_, acfg := n2config(explore.Replay(nil))
 	type job struct {
 		v    [5]int
@@ -209,7 +209,7 @@ func runC19(ctx *Ctx) {
 			r.Set(fmt.Sprintf("traces_validated_realtime_%v", v), same)
 		}
 	}
-	r.Rule = fmt.Sprintf("for %d count vectors, every downlink message index k of the fault-free conversation (K = 6..19) x {AMF closes instead of sending message k; sends ff ff ff; sends 00; sends the first half of the message; sends 2047 / 2048 / 4096 octets of ff (just below, at and above the emulator's read buffer); sends the message with its PDU choice index destroyed; with its outer length determinant pointing beyond the end; with its IE count 256 too large; with non-zero padding bits} + on the first vector the header of each of the 52 defined procedure codes in front of garbage + close / ff ff ff / truncation for three other subscribers (RAN-UE-NGAP-IDs 255/256, 9999/0, 511/512) = %d fault points, plus each fault kind as the reply that follows an NG SETUP FAILURE with Time To Wait, each run as the real process under strace (sendmsg/recvmsg on the N2 descriptor = ground truth of what the emulator consumed and sent); "+
+	r.Rule = fmt.Sprintf("for %d count vectors, every downlink message index k of the fault-free conversation (K = 6..19) x {AMF closes instead of sending message k; sends ff ff ff; sends 00; sends the first half of the message; sends 2047 / 2048 / 4096 octets of ff (just below, at and above the emulator's read buffer); sends the message with its PDU choice index destroyed; with its outer length determinant pointing beyond the end; with its IE count 256 too large; with non-zero padding bits; sends message k intact and closes right behind it (the emulator's next write fails)} + on the first vector the header of each of the 52 defined procedure codes in front of garbage + close / ff ff ff / truncation for three other subscribers (RAN-UE-NGAP-IDs 255/256, 9999/0, 511/512) = %d fault points, plus each fault kind as the reply that follows an NG SETUP FAILURE with Time To Wait, each run as the real process under strace (sendmsg/recvmsg on the N2 descriptor = ground truth of what the emulator consumed and sent); "+
 		"oracle: the process terminates within a 30 s horizon; if a recvmsg returned 0 / an error / the faulty octets, or a sendmsg failed (the emulator observed the fault), then exit status != 0, no completion banner and no sendmsg afterwards; exit 0 only if the faulty message was never consumed; the message after Registration Complete is exempt for the garbage kinds (deliberately ignored); faulty octets that the reference codec still decodes are out of scope; non-trivial = all; distinct = (vector, k, kind)", len(vectors), len(jobs))
 	r.Assume("strace -f is the monitor (ptrace available in the sandbox)", "test mode reports no sessions (only traffic mode prints them): 'reports a session it did not obtain' has nothing to observe here",
 		"time shim as in C01; thorough replays two conversations with real sleeps and requires byte-identical uplink histories")
@@ -306,7 +306,7 @@ func c19judge(r *report.Report, codec *refper.Codec, cs, kind string, orig []byt
 	for i, e := range ev {
 		switch {
 		case e.call == "recvmsg" && (e.ret <= 0):
-			if kind == "close" && e.errn != "EAGAIN" && e.errn != "EINTR" {
+			if (kind == "close" || kind == "close-after") && e.errn != "EAGAIN" && e.errn != "EINTR" {
 				observedAt = i
 			}
 		case e.call == "recvmsg" && faulty != nil && len(e.data) > 0 && (bytes.Equal(e.data, faulty) || (len(e.data) >= 2048 && bytes.HasPrefix(faulty, e.data))):
@@ -327,7 +327,7 @@ func c19judge(r *report.Report, codec *refper.Codec, cs, kind string, orig []byt
 		}
 		return fmt.Sprintf("fault-never-observed:exit=%d", res.ExitCode)
 	}
-	exempt := kind != "close" && c19isAfterRegistrationComplete(codec, orig)
+	exempt := kind != "close" && kind != "close-after" && c19isAfterRegistrationComplete(codec, orig)
 	out := fmt.Sprintf("observed:exit=%d", res.ExitCode)
 	if exempt {
 		return out + ":exempt"
